@@ -252,6 +252,13 @@ func CloseSessionFactory(a *AppEncryption) {
 	}
 }
 
+// VerifUseDBDriver makes newMysql open its connection through the named database/sql driver and forget
+// the connection it cached (overlay only).
+func VerifUseDBDriver(name string) {
+	dbdriver = name
+	dbconnection = nil
+}
+
 // NewAppEncryptionWithFactory builds the sidecar service over an existing session factory (overlay only).
 func NewAppEncryptionWithFactory(sf *appencryption.SessionFactory) *AppEncryption {
 	return &AppEncryption{
